@@ -13,6 +13,19 @@ NA = {
 PENDING = "check not built yet (planned, DESIGN.md section 6)"
 
 CHECKS = {
+    "C08": dict(
+        category="proof",
+        text="Leaf mechanism proved, global claim bounded. Deductive: util.un_camel (loop invariant over folds) -- no upper-case "
+             "character in the result, the result equals the lower-cased name up to inserted underscores (nothing lost, "
+             "duplicated or reordered, so names that differ modulo case/underscore stay different), length bounds, names "
+             "without capitals unchanged; for all ASCII identifiers. The uniqueness of generated names over overloads x "
+             "default arguments x explicit/defaulted suffixes is checked by a bounded run of the real generate_functions "
+             "(labelled bounded, not proof); it exposed one genuine defect (fixed) and one recorded known finding.",
+        design_ref="6/C08, A.3",
+        note="Not covered deductively: define_function_suffix / has_default_args / template and generic expansion (clone "
+             "FunctionNodes, mutate Scopes), name templates, dump_generic_interfaces, Python/Lua method tables.",
+        technique="contract-based deductive verification (AST-generated VCs) of un_camel + bounded stand-in for name uniqueness",
+    ),
     "C15": dict(
         category="proof",
         text="Deductive (ghost 'listed == written' contract, SMT): Wrapc.write_header lists a file iff it writes it, under the "
